@@ -103,13 +103,19 @@ def run(tier, seed):
         neither-raises, same-length-and-order, every-shorthand-name-accepted-by-construction.
         Returns (short, long) with None for a form that raised."""
         inp = list(chord)
+        same = list(chord)      # ONE list object handed to both forms: an answer must not depend on (or change) it
         try:
-            short = chords.determine(list(chord), True)
+            short = chords.determine(same, True)
         except Exception as e:  # noqa
             R.fail(group, "neither-raises", "shorthand form raised %s: %s" % (type(e).__name__, e), inp)
             short = None
+        if same != inp:
+            R.fail(group, "same-length-and-order", "determine(chord, True) changed the caller's chord to %r" % (same,), inp)
+            same = list(chord)
         try:
-            long_ = chords.determine(list(chord), False)
+            long_ = chords.determine(same, False)
+            if same != inp:
+                R.fail(group, "same-length-and-order", "determine(chord, False) changed the caller's chord to %r" % (same,), inp)
         except Exception as e:  # noqa
             fid = None
             if short is not None and len(chord) >= 5:
